@@ -226,20 +226,39 @@ def r13_3(ctx, rc):
     if memo_attr is None:
         rc.note('no memo in the HASH implementation')
         return
-    # flag variable stored with the digest
+    # flag variable stored with the digest: the entry is a pair or a
+    # namedtuple-like value object; the flag is the member defined by the
+    # new cache's has_norm_cased_file
+    cfg = ctx.E.cfgs.get(H)
+    members = []
+    sv = store.value
+    if isinstance(sv, ast.Tuple):
+        members = list(sv.elts)
+    elif isinstance(sv, ast.Call) and any(
+            isinstance(g, Func) and g.is_ctor_call and getattr(
+                prog.classes.get(g.cls_for_ctor), 'synthetic', False)
+            for g in prog.resolve_call(sv, H)):
+        members = list(sv.args) + [k.value for k in sv.keywords]
     flag = None
-    if isinstance(store.value, ast.Tuple) and len(store.value.elts) == 2 and \
-            isinstance(store.value.elts[1], ast.Name):
-        flag = store.value.elts[1].id
+    names = [m.id for m in members if isinstance(m, ast.Name)]
+    for nm in names:
+        for d in cfg.nodes:
+            if nm in d.defs and isinstance(d.ast, ast.Assign) and isinstance(
+                    d.ast.value, ast.Call) and isinstance(
+                        d.ast.value.func, ast.Attribute) and \
+                    d.ast.value.func.attr == 'has_norm_cased_file':
+                flag = nm
+    if flag is None and len(members) == 2 and isinstance(
+            members[1], ast.Name):
+        flag = members[1].id
     key = 'memo stores (digest, built-flag)'
-    if flag is None:
+    if flag is None or len(members) != 2:
         rc.violation('memo-shape | ' + H.qualname,
                      'the hash memo does not store the built flag with the '
                      'digest', prog.loc(H, store), key=key)
         return
     rc.ok({'memo': memo_attr, 'flag': flag}, key=key)
     # the flag is exactly new_cache.has_norm_cased_file(<path>)
-    cfg = ctx.E.cfgs.get(H)
     defs = [d for d in cfg.nodes if flag in d.defs]
     key = 'built flag == new_cache.has_norm_cased_file(path)'
     ok = len(defs) == 1 and isinstance(defs[0].ast, ast.Assign)
@@ -260,20 +279,28 @@ def r13_3(ctx, rc):
             'output is (re)built can be served after it was rebuilt',
             prog.loc(H, defs[0].ast) if defs else H.file, key=key)
     # the memo-hit return is guarded by stored flag == current flag
+    def from_memo(e, func, cn):
+        org = ctx.H.origins(e, func, cn)
+        return any(o[0] == 'attr' and o[2] == memo_attr for o in org)
     hits = [x for x in sg.nodes if x.kind == 'out' and
-            x.cn.kind == 'return' and isinstance(
-                x.cn.ast.value, ast.Subscript)]
+            x.cn.kind == 'return' and x.func is H and
+            x.cn.ast.value is not None and
+            from_memo(x.cn.ast.value, H, x.cn)]
 
     def flag_eq(lab):
         if not (isinstance(lab, tuple) and len(lab) == 4 and lab[0] == 'T'):
             return False
         a = lab[1]
-        return isinstance(a, ast.Compare) and len(a.ops) == 1 and \
-            isinstance(a.ops[0], ast.Eq) and any(
-                isinstance(s, ast.Name) and s.id == flag
-                for s in (a.left, a.comparators[0])) and any(
-                    isinstance(s, ast.Subscript)
-                    for s in (a.left, a.comparators[0]))
+        if not (isinstance(a, ast.Compare) and len(a.ops) == 1 and
+                isinstance(a.ops[0], (ast.Eq, ast.Is))):
+            return False
+        sides = (a.left, a.comparators[0])
+        cur = [s_ for s_ in sides
+               if isinstance(s_, ast.Name) and s_.id == flag]
+        old = [s_ for s_ in sides if s_ not in cur and
+               not isinstance(s_, ast.Constant) and
+               from_memo(s_, lab[2], lab[3])]
+        return bool(cur) and bool(old)
     seen = sg.reach([sg.entry], edge_ok=lambda a, b, lab: not flag_eq(lab))
     key = 'memo hit requires stored flag == current flag'
     if not hits:
